@@ -15,7 +15,15 @@
 (*  * Store::get_ser / exists / iter open a fresh read transaction: they see the last   *)
 (*    committed map; an iterator keeps its read transaction (snapshot) until dropped.   *)
 (*  * maybe_resize() (only called from batch()) enlarges the map iff more than 90 % is  *)
-(*    used, and only once no transaction is open in the process (enter_tx gate).        *)
+(*    used, and only once no transaction is open in the process (enter_tx gate):        *)
+(*    it raises the flag `resizing` (from then on enter_tx lets nobody in), and the      *)
+(*    enlargement itself (mdb_env_set_mapsize) is DEFERRED until the count of open       *)
+(*    transactions (OpenTxs below) is 0. The batch that asked for it is parked at the    *)
+(*    gate meanwhile (BeginWait .. Admit) and must NOT yet own LMDB's write transaction: *)
+(*    set_mapsize refuses (EINVAL, only logged) while a write transaction is active, and *)
+(*    the parked batch would then carry on against the old, full map. The constant       *)
+(*    TxnBeforeGate = TRUE is that careless order (write_txn() before enter_tx()); it    *)
+(*    exists only to show that NoMapFull / ResizeGate are not vacuous.                   *)
 (*                                                                                      *)
 (* Two formulations of the nested state are carried side by side and required to agree: *)
 (*   stack  - overlays (puts / tombstones per level; reads resolve top-down)            *)
@@ -31,7 +39,9 @@ CONSTANTS NS,        \* key spaces (prefix databases) 1..NS
           MapInit,   \* initial map size, in space units
           Chunk,     \* allocation chunk, in space units
           PutCost,   \* space units a put may newly allocate (0 switches space accounting off)
-          BatchMax   \* ASSUMPTION on callers: a batch allocates at most this many units
+          BatchMax,  \* ASSUMPTION on callers: a batch allocates at most this many units
+          TxnBeforeGate  \* FALSE: Batch::new = enter_tx() then write_txn() (the code, the property);
+                         \* TRUE: write_txn() first - the waiting batch owns the write transaction (careless variant)
 
 Spaces  == 1..NS
 Keys    == 1..NK
@@ -50,10 +60,14 @@ VARIABLES committed,  \* [Cells -> Vals \cup {NoVal}]   durable, what every outs
           shadow,     \* Seq of full views, same length as stack (LMDB-shaped formulation)
           snap,       \* [Readers -> snapshot held by an outside iterator, or NoSnap]
           mapSize, used, pend,   \* space accounting (units): map, high-water mark, open batch
+          resizing,   \* EnvState.resizing: an enlargement has been requested and not yet carried out
+          parked,     \* "no" | "gate": a batch() call waits at the enter_tx gate for the enlargement, owning nothing
+                      \* | "gate_txn": it waits there while already owning LMDB's write transaction (careless variant only)
           act         \* label, arguments and RESULT of the last action (not part of the state view)
 
-vars  == <<committed, stack, shadow, snap, mapSize, used, pend, act>>
-state == <<committed, stack, shadow, snap, mapSize, used, pend>>
+vars  == <<committed, stack, shadow, snap, mapSize, used, pend, resizing, parked, act>>
+state == <<committed, stack, shadow, snap, mapSize, used, pend, resizing, parked>>
+gate  == <<resizing, parked>>
 
 Maps     == [Cells -> Vals \cup {NoVal}]
 Overlays == [Cells -> Vals \cup {NoVal, Untouched}]
@@ -97,19 +111,42 @@ NewSize == IF mapSize < Chunk THEN Chunk
                 IN CHOOSE t \in ok : \A t2 \in ok : t <= t2
 
 NoReaderOpen == \A r \in Readers : snap[r] = NoSnap
+\* what EnvState.open_txs_count has to equal at every instant (enter_tx increments, TxCounter::drop decrements):
+\* the open outside read transactions plus the open batch. The enlargement waits for it to be 0 - a count that
+\* drifts upwards (a lost decrement) means the enlargement, and with it every later store call, waits for ever.
+OpenTxs == Cardinality({r \in Readers : snap[r] # NoSnap}) + (IF stack # <<>> THEN 1 ELSE 0)
+GateOpen == ~resizing /\ parked = "no"
 
 -----------------------------------------------------------------------------
 Init == /\ committed = EmptyMap /\ stack = <<>> /\ shadow = <<>>
         /\ snap = [r \in Readers |-> NoSnap]
         /\ mapSize = MapInit /\ used = 0 /\ pend = 0
+        /\ resizing = FALSE /\ parked = "no"
         /\ act = [k |-> "Init"]
 
 (* ---- the writer: Store::batch() and everything done through the Batch ---- *)
 Begin == /\ stack = <<>>                 \* LMDB writer mutex: one batch stack at a time
-         /\ ~NeedsResize                 \* batch() resizes first (and waits for open readers)
+         /\ GateOpen
+         /\ ~NeedsResize                 \* batch() resizes first (and waits for open readers): BeginWait
          /\ stack' = <<EmptyOv>> /\ shadow' = <<committed>> /\ pend' = 0
          /\ act' = [k |-> "Begin"]
-         /\ UNCHANGED <<committed, snap, mapSize, used>>
+         /\ UNCHANGED <<committed, snap, mapSize, used, gate>>
+
+\* batch() on a map that is more than 90 % full: maybe_resize() raises `resizing`; the caller parks at the
+\* enter_tx gate until the enlargement has been carried out (at once if OpenTxs = 0, else when the last open
+\* transaction of the other threads is closed). (Two writers racing the needs_resize check are outside the model.)
+BeginWait == /\ stack = <<>> /\ GateOpen /\ NeedsResize
+             /\ resizing' = TRUE
+             /\ parked' = IF TxnBeforeGate THEN "gate_txn" ELSE "gate"
+             /\ act' = [k |-> "BeginWait"]
+             /\ UNCHANGED <<committed, stack, shadow, snap, mapSize, used, pend>>
+
+\* the gate opens: the parked batch gets (or, careless variant, already has) the write transaction and goes on
+Admit == /\ parked # "no" /\ ~resizing /\ stack = <<>>
+         /\ stack' = <<EmptyOv>> /\ shadow' = <<committed>> /\ pend' = 0
+         /\ parked' = "no"
+         /\ act' = [k |-> "Begin"]
+         /\ UNCHANGED <<committed, snap, mapSize, used, resizing>>
 
 Write(sp, key, v, name, cost) ==
          /\ Depth > 0 /\ pend + cost <= BatchMax
@@ -117,7 +154,7 @@ Write(sp, key, v, name, cost) ==
          /\ shadow' = [shadow EXCEPT ![Depth][<<sp, key>>] = v]
          /\ pend' = pend + cost
          /\ act' = [k |-> name, sp |-> sp, key |-> key, val |-> v]
-         /\ UNCHANGED <<committed, snap, mapSize, used>>
+         /\ UNCHANGED <<committed, snap, mapSize, used, gate>>
 Put(sp, key, v) == v \in Vals /\ Write(sp, key, v, "Put", PutCost)
 Del(sp, key)    == Write(sp, key, NoVal, "Del", 0)     \* deleting an absent key is a no-op, not an error
 
@@ -130,7 +167,7 @@ Child == /\ Depth >= 1 /\ Depth < MaxDepth
          /\ stack' = Append(stack, EmptyOv)
          /\ shadow' = Append(shadow, shadow[Depth])
          /\ act' = [k |-> "Child"]
-         /\ UNCHANGED <<committed, snap, mapSize, used, pend>>
+         /\ UNCHANGED <<committed, snap, mapSize, used, pend, gate>>
 
 MergeOv(below, top) == [c \in Cells |-> IF top[c] # Untouched THEN top[c] ELSE below[c]]
 
@@ -138,38 +175,38 @@ CommitChild == /\ Depth >= 2
                /\ stack'  = SubSeq(stack, 1, Depth - 2) \o <<MergeOv(stack[Depth - 1], stack[Depth])>>
                /\ shadow' = SubSeq(shadow, 1, Depth - 2) \o <<shadow[Depth]>>
                /\ act' = [k |-> "CommitChild"]
-               /\ UNCHANGED <<committed, snap, mapSize, used, pend>>
+               /\ UNCHANGED <<committed, snap, mapSize, used, pend, gate>>
 
 DropChild == /\ Depth >= 2
              /\ stack'  = SubSeq(stack, 1, Depth - 1)
              /\ shadow' = SubSeq(shadow, 1, Depth - 1)
              /\ act' = [k |-> "DropChild"]
-             /\ UNCHANGED <<committed, snap, mapSize, used, pend>>
+             /\ UNCHANGED <<committed, snap, mapSize, used, pend, gate>>
 
 Commit == /\ Depth = 1
           /\ committed' = ApplyOv(committed, stack[1])
           /\ stack' = <<>> /\ shadow' = <<>>
           /\ used' = used + pend /\ pend' = 0      \* pessimistic: freed pages are never reused
           /\ act' = [k |-> "Commit"]
-          /\ UNCHANGED <<snap, mapSize>>
+          /\ UNCHANGED <<snap, mapSize, gate>>
 
 Drop == /\ Depth = 1
         /\ stack' = <<>> /\ shadow' = <<>> /\ pend' = 0
         /\ act' = [k |-> "Drop"]
-        /\ UNCHANGED <<committed, snap, mapSize, used>>
+        /\ UNCHANGED <<committed, snap, mapSize, used, gate>>
 
 (* ---- other threads: Store::get_ser / exists / iter on fresh read transactions ---- *)
 OutGetRes(m, sp, key)    == m[<<sp, key>>]
 OutExistsRes(m, sp, key) == m[<<sp, key>>] # NoVal
-OutRead(a) == act' = a /\ UNCHANGED state
+OutRead(a) == ~resizing /\ act' = a /\ UNCHANGED state      \* enter_tx lets nobody in while `resizing` is up
 OutGet(sp, key)    == OutRead([k |-> "OutGet", sp |-> sp, key |-> key, res |-> OutGetRes(committed, sp, key)])
 OutExists(sp, key) == OutRead([k |-> "OutExists", sp |-> sp, key |-> key, res |-> OutExistsRes(committed, sp, key)])
 OutIter(sp)        == OutRead([k |-> "OutIter", sp |-> sp, res |-> IterRes(committed, sp)])
 
-OutIterOpen(r, sp) == /\ snap[r] = NoSnap
+OutIterOpen(r, sp) == /\ snap[r] = NoSnap /\ ~resizing
                       /\ snap' = [snap EXCEPT ![r] = [open |-> TRUE, m |-> committed, sp |-> sp, pos |-> 0]]
                       /\ act' = [k |-> "OutIterOpen", r |-> r, sp |-> sp]
-                      /\ UNCHANGED <<committed, stack, shadow, mapSize, used, pend>>
+                      /\ UNCHANGED <<committed, stack, shadow, mapSize, used, pend, gate>>
 
 NextKeys(s) == {k2 \in Keys : k2 > s.pos /\ s.m[<<s.sp, k2>>] # NoVal}
 OutIterNext(r) == /\ snap[r] # NoSnap
@@ -180,27 +217,36 @@ OutIterNext(r) == /\ snap[r] # NoSnap
                      ELSE LET k1 == CHOOSE k2 \in nk : \A k3 \in nk : k2 <= k3 IN
                         /\ snap' = [snap EXCEPT ![r].pos = k1]
                         /\ act' = [k |-> "OutIterNext", r |-> r, res |-> <<k1, s.m[<<s.sp, k1>>]>>]
-                  /\ UNCHANGED <<committed, stack, shadow, mapSize, used, pend>>
+                  /\ UNCHANGED <<committed, stack, shadow, mapSize, used, pend, gate>>
 
 OutIterClose(r) == /\ snap[r] # NoSnap
                    /\ snap' = [snap EXCEPT ![r] = NoSnap]
                    /\ act' = [k |-> "OutIterClose", r |-> r]
-                   /\ UNCHANGED <<committed, stack, shadow, mapSize, used, pend>>
+                   /\ UNCHANGED <<committed, stack, shadow, mapSize, used, pend, gate>>
 
 (* ---- the environment ---- *)
-\* mdb_env_set_mapsize: only with no transaction open in the process (the enter_tx gate)
-Resize == /\ NeedsResize /\ stack = <<>> /\ NoReaderOpen
-          /\ mapSize' = NewSize
+\* mdb_env_set_mapsize, requested by BeginWait: carried out only once no transaction is open in the process
+\* (OpenTxs = 0; nobody can get in meanwhile) - and the batch parked at the gate does not own the write transaction
+Resize == /\ resizing /\ OpenTxs = 0 /\ parked # "gate_txn"
+          /\ mapSize' = NewSize /\ resizing' = FALSE
           /\ act' = [k |-> "Resize"]
-          /\ UNCHANGED <<committed, stack, shadow, snap, used, pend>>
+          /\ UNCHANGED <<committed, stack, shadow, snap, used, pend, parked>>
+
+\* careless variant only: the parked batch owns LMDB's write transaction, mdb_env_set_mapsize answers EINVAL,
+\* which is only logged; the flag is cleared all the same and the batch goes on against the old map
+ResizeRefused == /\ resizing /\ NoReaderOpen /\ parked = "gate_txn"
+                 /\ resizing' = FALSE
+                 /\ act' = [k |-> "ResizeRefused"]
+                 /\ UNCHANGED <<committed, stack, shadow, snap, mapSize, used, pend, parked>>
 
 \* process death at any instant (in particular right before / right after Commit)
 Crash == /\ stack' = <<>> /\ shadow' = <<>> /\ pend' = 0
          /\ snap' = [r \in Readers |-> NoSnap]
+         /\ resizing' = FALSE /\ parked' = "no"
          /\ act' = [k |-> "Crash"]
          /\ UNCHANGED <<committed, mapSize, used>>
 
-Next == \/ Begin \/ Child \/ CommitChild \/ DropChild \/ Commit \/ Drop \/ Resize \/ Crash
+Next == \/ Begin \/ BeginWait \/ Admit \/ ResizeRefused \/ Child \/ CommitChild \/ DropChild \/ Commit \/ Drop \/ Resize \/ Crash
         \/ \E sp \in Spaces : \/ Iter(sp) \/ OutIter(sp)
                               \/ \E r \in Readers : OutIterOpen(r, sp)
                               \/ \E key \in Keys : \/ Del(sp, key) \/ Get(sp, key) \/ Exists(sp, key)
@@ -218,6 +264,9 @@ TypeOK == /\ committed \in Maps
           /\ \A r \in Readers : snap[r] = NoSnap \/
                 (snap[r].open /\ snap[r].m \in Maps /\ snap[r].sp \in Spaces /\ snap[r].pos \in 0..NK + 1)
           /\ mapSize \in Nat /\ used \in Nat /\ pend \in 0..BatchMax
+          /\ resizing \in BOOLEAN /\ parked \in {"no", "gate", "gate_txn"}
+          /\ (parked = "gate_txn" => TxnBeforeGate)
+          /\ (resizing => parked # "no") /\ (parked # "no" => stack = <<>>)
 
 \* the overlay formulation, the definitional bottom-up view and LMDB's private-view
 \* formulation agree at every level; inside reads resolve top-down to exactly that view
@@ -226,8 +275,12 @@ LookupTopDown == Depth > 0 => TopView = shadow[Depth]
 
 \* no operation fails for lack of space (under the BatchMax assumption)
 NoMapFull == used + pend <= mapSize
-\* the map is never enlarged under an open transaction
-ResizeGate == [][act'.k = "Resize" => (stack = <<>> /\ NoReaderOpen)]_vars
+\* the map is never enlarged under an open transaction - in particular not under a write transaction owned by
+\* the batch that waits for the enlargement - and no batch starts on a map that still needs to be enlarged
+ResizeGate == [][/\ act'.k = "Resize" => (stack = <<>> /\ NoReaderOpen /\ parked = "gate")
+                 /\ act'.k = "Begin" => ~NeedsResize]_vars
+\* a batch waiting at the gate never owns the write transaction
+WaiterOwnsNothing == parked # "gate_txn"
 
 \* Isolation + atomicity: the committed map changes only at a top-level Commit, and then
 \* to the whole view of the batch at once (every write of the batch and of every child
@@ -245,6 +298,6 @@ SnapStable == [][\A r \in Readers :
                    /\ (snap[r] # NoSnap /\ snap'[r] # NoSnap) => (snap'[r].m = snap[r].m /\ snap'[r].sp = snap[r].sp)
                    /\ (snap[r] = NoSnap /\ snap'[r] # NoSnap) => snap'[r].m = committed]_vars
 \* resize and crash do not touch committed data; a crash discards exactly the open batch
-ResizeStutter == [][act'.k = "Resize" => UNCHANGED <<committed, stack, shadow, snap>>]_vars
+ResizeStutter == [][act'.k \in {"Resize", "BeginWait", "ResizeRefused"} => UNCHANGED <<committed, stack, shadow, snap>>]_vars
 CrashDurable  == [][act'.k = "Crash" => (committed' = committed /\ stack' = <<>>)]_vars
 =============================================================================
